@@ -232,6 +232,26 @@ def gen_mdrv(verif, dst, repo):
                      "impl WorkerH {\n" + hu.replace("fn handle_uni_h3_stream(", "pub fn handle_uni_h3_stream(", 1) + "\n\n"
                      + hb2.replace("fn handle_bi_h3_stream(", "pub fn handle_bi_h3_stream(", 1) + "\n}\n")
 
+    # hand-off code: the three accepting branches of the worker and the Driver methods the application awaits.
+    # Substitution: parameter type `&quinn::Connection` -> `&ModelConnection` (3 sites)
+    acc_w = []
+    for fn in ("accept_uni", "accept_bi", "accept_datagram"):
+        t, ln = slice_item(drv, r"^        async fn %s\(" % fn, "worker::Worker::" + fn)
+        if t.count("quic_connection: &quinn::Connection") != 1:
+            raise GenError(f"worker::{fn}: expected one `quic_connection: &quinn::Connection` parameter")
+        t = t.replace("quic_connection: &quinn::Connection", "quic_connection: &ModelConnection")
+        t = t.replace("async fn %s(" % fn, "pub async fn %s(" % fn, 1)
+        sliced[f"wtransport/src/driver/mod.rs:{ln} worker::Worker::{fn} (parameter type &quinn::Connection -> &ModelConnection)"] = len(t)
+        acc_w.append(t)
+    write_if_changed(os.path.join(gen_root, "accept_worker.rs"), "impl WorkerA {\n" + "\n\n".join(acc_w) + "\n}\n")
+    acc_d = []
+    for fn, rx in (("accept_uni", r"^    pub async fn accept_uni\("), ("accept_bi", r"^    pub async fn accept_bi\("),
+                   ("receive_datagram", r"^    pub async fn receive_datagram\("), ("result", r"^    async fn result\(&self\)")):
+        t, ln = slice_item(drv, rx, "Driver::" + fn)
+        sliced[f"wtransport/src/driver/mod.rs:{ln} Driver::{fn}"] = len(t)
+        acc_d.append(t)
+    write_if_changed(os.path.join(gen_root, "accept_driver.rs"), "impl DriverH {\n" + "\n\n".join(acc_d) + "\n}\n")
+
     conn = rd("connection.rs")
     t, ln = slice_item(conn, r"^    pub fn max_datagram_size\(&self\)", "Connection::max_datagram_size")
     sliced[f"wtransport/src/connection.rs:{ln} Connection::max_datagram_size"] = len(t)
